@@ -219,6 +219,8 @@ class Engine(object):
                     return c.apply(interp, g, argv, kwv)
                 return eng.inline(interp, fi, [gv] + argv, kwv)
             return VCallable(call, fi.key)
+        if name == 'add_nodes_from':
+            return VCallable(lambda i, a, k, f: eng.nx_add_nodes_from(i, g, a, k), 'nx::add_nodes_from')
         if name in self.nxmodels:
             fm = self.nxmodels[name]
             interp.ctx.notes.append('trusted nx model: ' + name)
@@ -510,6 +512,30 @@ def _ctor_store(self, g, name, v, interp):
 
 
 Engine.ctor_store = _ctor_store
+
+
+def _nx_add_nodes_from(self, interp, g, argv, kwv):
+    """trusted model of networkx add_nodes_from(<graph>) (frame analysis of pyvc/frames.py: `new-node rows only`): every node of
+    the argument becomes a node with an empty adjacency row unless it already is one; attributes of new nodes are empty; nothing
+    else changes, so the typestate of g is kept"""
+    if len(argv) != 1 or argv[0].kind != 'graph' or kwv:
+        raise Undecided('add_nodes_from with an argument other than a graph')
+    src = argv[0].g
+    ctx = interp.ctx
+    x = z3.Const('x?an', Node)
+    old = g.snapshot()
+    tag = '@addnodes%d' % len(ctx.hyps)
+    comps = ['NodeIn', 'NAttr'] + ['Row_' + w for w in g.ws]
+    g.havoc(tag, only=comps)
+    ctx.assume(z3.ForAll([x], g['NodeIn'][x] == z3.Or(old['NodeIn'][x], src['NodeIn'][x]), patterns=[g['NodeIn'][x]]), 'call')
+    for w in g.ws:
+        ctx.assume(z3.ForAll([x], g['Row_' + w][x] == g['NodeIn'][x], patterns=[g['Row_' + w][x]]), 'call')
+    ctx.assume(z3.ForAll([x], g['NAttr'][x] == z3.If(old['NodeIn'][x], old['NAttr'][x], self.empty_attr()), patterns=[g['NAttr'][x]]), 'call')
+    ctx.notes.append('trusted nx model: add_nodes_from(graph)')
+    return VNone
+
+
+Engine.nx_add_nodes_from = _nx_add_nodes_from
 
 
 def _call_type(self, interp, name, argv, kwv, fr):
